@@ -2,6 +2,10 @@ mod util;
 mod host;
 mod props;
 mod mp;
+mod script;
+mod sim;
+mod facts;
+mod gen_codes;
 
 use util::{Driver, Report};
 
@@ -9,9 +13,16 @@ pub struct Ctx { pub tier: String, pub seed: u64, pub driver: Driver, pub thorou
 
 fn main() {
     let args: Vec<String> = std::env::args().collect();
-    if args.len() < 6 {
+    if args.len() < 6 && !(args.len() >= 3 && args[1] == "replay-step") {
         eprintln!("usage: aquaharness <property> <quick|thorough> <seed> <driver> <report.json> [replay-file]");
         std::process::exit(2);
+    }
+    if args[1] == "replay-step" {
+        let v: serde_json::Value = serde_json::from_str(&std::fs::read_to_string(&args[2]).unwrap()).unwrap();
+        let idx: usize = args.get(3).and_then(|s| s.parse().ok()).unwrap_or(0);
+        let inp = if v.get("oracle_failures").is_some() { v["oracle_failures"][idx]["input"].clone() } else if v.get("failure").is_some() { v["failure"]["input"].clone() } else { v };
+        props::probe::replay_step(&inp);
+        return;
     }
     let prop = args[1].clone();
     let tier = args[2].clone();
@@ -19,12 +30,14 @@ fn main() {
     let driver = Driver::spawn(&args[4]);
     let mut ctx = Ctx { thorough: tier == "thorough", tier, seed, driver, replay: args.get(6).cloned() };
     // silence panic messages of caught panics (they are reported through the report)
-    std::panic::set_hook(Box::new(|_| {}));
+    if std::env::var("AQUA_PANIC_VERBOSE").is_err() { std::panic::set_hook(Box::new(|_| {})); }
     let t0 = std::time::Instant::now();
     let mut report = Report::new(&prop, "");
     let res = std::panic::catch_unwind(std::panic::AssertUnwindSafe(|| match prop.as_str() {
         "C21" => props::c21::run(&mut ctx, &mut report),
         "C22" => props::c22::run(&mut ctx, &mut report),
+        "C02" | "C03" | "C04" | "C05" | "C06" | "C07" | "C09" | "C10" | "C19" | "C20" => props::hist::run_property(&prop, &mut ctx, &mut report),
+        "probe" => props::probe::run(&mut ctx, &mut report),
         _ => { eprintln!("unknown property {prop}"); std::process::exit(2); }
     }));
     let mut j = report.to_json();
